@@ -1,5 +1,14 @@
 """Property registry: what each check builds, generates and trusts."""
-from . import gens_sym, gens_sm2
+from . import gens_sym, gens_sm2, gens_sm9
+import itertools
+
+
+def chain(*gens):
+    def g(tier, rng):
+        for f in gens:
+            for x in f(tier, rng):
+                yield x
+    return g
 
 COMMON_TRUST = [
     "Lean 4.33.0 kernel (+ Mathlib v4.33.0 where a Proofs module imports a Mathlib module)",
@@ -13,7 +22,17 @@ NOT_APPLICABLE = {}
 
 SM2_CONSTS = ['SM2.lean', 'SM2Table.lean']
 
+SM9_CONSTS = ['SM9.lean', 'SM9Table.lean']
+
 PROPS = {
+    'C09': dict(gen=gens_sm9.gen_c09, consts=SM9_CONSTS, level='proof', technique='tbd', assumptions=[]),
+    'C10': dict(gen=gens_sm9.gen_c10, consts=SM9_CONSTS, level='proof', technique='tbd', assumptions=[]),
+    'C12': dict(gen=gens_sm9.gen_c12, consts=SM9_CONSTS, level='translation_validation', technique='tbd', assumptions=[]),
+    'C13': dict(gen=gens_sm9.gen_c13, consts=SM9_CONSTS, level='proof', technique='tbd', assumptions=[]),
+    'C14': dict(gen=chain(gens_sm2.gen_c14_sm2, gens_sm9.gen_c14_sm9), consts=SM2_CONSTS + SM9_CONSTS, level='proof', technique='tbd', assumptions=[]),
+    'C16': dict(gen=gens_sm9.gen_c16, consts=SM9_CONSTS, level='proof', technique='tbd', assumptions=[]),
+    'C17': dict(gen=gens_sm9.gen_c17, consts=SM9_CONSTS, level='proof', technique='tbd', assumptions=[]),
+    'C20': dict(gen=chain(gens_sm2.gen_c20_sm2, gens_sm9.gen_c20_sm9), consts=SM2_CONSTS + SM9_CONSTS, level='proof', technique='tbd', assumptions=[]),
     'C03': dict(gen=gens_sm2.gen_c03, consts=SM2_CONSTS, level='proof', technique='tbd', assumptions=[]),
     'C04': dict(gen=gens_sm2.gen_c04, consts=SM2_CONSTS, level='proof', technique='tbd', assumptions=[]),
     'C05': dict(gen=gens_sm2.gen_c05, consts=SM2_CONSTS, level='proof', technique='tbd', assumptions=[]),
